@@ -11,19 +11,36 @@
  *
  * Part 2 (E-SPACE): from clean states spread over the reachable set, EVERY
  * image over a per-word corruption alphabet is written out of band and
- * register_sanitise is called once.
+ * register_sanitise is called once -- without a fault and, on callback-backed
+ * tables, once per single fault position (k-th read / k-th write callback
+ * answers IO_ERROR).
+ *
+ * Tables: the original nine (+3 thorough) and
+ *   12,13  registers in write-only areas (partial block writes over content
+ *          the library has to fetch although the area is not readable)
+ *   14,15  areas flagged REG_AF_SKIP_DEFAULTS (memory / callback-backed)
+ *   16     an area without write callback in front of a writable one
+ *   17     an unconstrained f64 next to a constrained register
+ *   20..26 three adjacent two-word areas, every non-empty subset of them
+ *          holding registers, the others entry-less
+ *   33..38 (thorough) the same with two registers in the second / third area
  */
 #include "mc.h"
 #include "regtab.h"
 
-#define NTABLES 9
-#define NTABLES_THOROUGH 12
 #define MAXVALS 12
+
+/* table ids; the id is also the partition number / case-number base */
+static const int QUICK_IDS[] = { 0, 1, 2, 3, 4, 5, 6, 7, 8, 12, 13, 14, 15, 16, 17, 20, 21, 22, 23, 24, 25, 26 };
+static const int THOROUGH_IDS[] = { 0, 1, 2, 3, 4, 5, 6, 7, 8, 9, 10, 11, 12, 13, 14, 15, 16, 17, 20, 21, 22, 23, 24, 25, 26, 37, 36, 34, 33, 35, 38 };
+#define CORRUPTION_BASE 64
 
 static struct tab tb;
 static struct tspec spec;
 static RegisterAtom g_init_image[RT_MAXW];
 static bool g_has_fail;
+static bool g_sanitise_unspec; /* what sanitise does to this table is not fixed by the statement (always-fail registers; registers in write-only areas) */
+static unsigned g_corrupt_areas; /* mask of the areas part 2 corrupts */
 static uint16_t g_init_flags;
 static int nwords; /* total words of all areas */
 
@@ -165,6 +182,85 @@ make_table(int ti, struct tspec *s)
         s->r[1] = mkr(REG_TYPE_SINT64, 0x8000, K_RANGE, 0xfffffffeffffffffull, 0xfffffffffffffffdull, 0xfffffffffffffffdull);
         s->r[2] = mkr(REG_TYPE_SINT16, 0x8004, K_MIN, 0xffff, 0, 0);
         break;
+    case 12: /* LE, memory: u16 range | write-only area: u32 max, s32 range */
+        s->be = false;
+        s->na = 2;
+        s->a[0] = (struct aspec){ 0x10, 1, REG_AF_RW, false, false };
+        s->a[1] = (struct aspec){ 0x11, 4, REG_AF_WRITEABLE, false, false };
+        s->nr = 3;
+        s->r[0] = mkr(REG_TYPE_UINT16, 0x10, K_RANGE, 0x0100, 0x7f00, 0x0100);
+        s->r[1] = mkr(REG_TYPE_UINT32, 0x11, K_MAX, 0, 0x7ffe8001, 0x00010002);
+        s->r[2] = mkr(REG_TYPE_SINT32, 0x13, K_RANGE, 0xfffeffffu /* -65537 */, 0x00010001, 0);
+        break;
+    case 13: /* BE, callback-backed write-only area: u64 min, u16 max */
+        s->be = true;
+        s->a[0] = (struct aspec){ 2, 5, REG_AF_WRITEABLE, true, false };
+        s->nr = 2;
+        s->r[0] = mkr(REG_TYPE_UINT64, 2, K_MIN, 0x0000000100020003ull, 0, 0x7ffe800180028003ull);
+        s->r[1] = mkr(REG_TYPE_UINT16, 6, K_MAX, 0, 0x00ff, 0x0010);
+        break;
+    case 14: /* LE, memory, SKIP_DEFAULTS area (zero content is valid, defaults are not zero): u16 max, s32 range | plain area: u16 range, u16 unconstrained */
+        s->be = false;
+        s->na = 2;
+        s->a[0] = (struct aspec){ 1, 3, REG_AF_RW | REG_AF_SKIP_DEFAULTS, false, false };
+        s->a[1] = (struct aspec){ 4, 2, REG_AF_RW, false, false };
+        s->nr = 4;
+        s->r[0] = mkr(REG_TYPE_UINT16, 1, K_MAX, 0, 0x7f00, 0x0100);
+        s->r[1] = mkr(REG_TYPE_SINT32, 2, K_RANGE, 0xfffeffffu /* -65537 */, 0x00010001, 5);
+        s->r[2] = mkr(REG_TYPE_UINT16, 4, K_RANGE, 5, 10, 7);
+        s->r[3] = mkr(REG_TYPE_UINT16, 5, K_NONE, 0, 0, 0x1234);
+        break;
+    case 15: /* BE, callback-backed SKIP_DEFAULTS area: f32 range, u16 max */
+        s->be = true;
+        s->a[0] = (struct aspec){ 8, 3, REG_AF_RW | REG_AF_SKIP_DEFAULTS, true, false };
+        s->nr = 2;
+        s->r[0] = mkr(REG_TYPE_FLOAT32, 8, K_RANGE, fb(-2.5f), fb(1000.25f), fb(1.0f));
+        s->r[1] = mkr(REG_TYPE_UINT16, 10, K_MAX, 0, 0x00ff, 0x0010);
+        break;
+    case 16: /* LE, callback-backed area without write callback in front of a memory area: u16 range, u16 max | u16 range, u32 min */
+        s->be = false;
+        s->na = 2;
+        s->a[0] = (struct aspec){ 1, 2, REG_AF_READABLE, true, true };
+        s->a[1] = (struct aspec){ 3, 3, REG_AF_RW, false, false };
+        s->nr = 4;
+        s->r[0] = mkr(REG_TYPE_UINT16, 1, K_RANGE, 5, 10, 7);
+        s->r[1] = mkr(REG_TYPE_UINT16, 2, K_MAX, 0, 0x00ff, 0x0010);
+        s->r[2] = mkr(REG_TYPE_UINT16, 3, K_RANGE, 0x0100, 0x7f00, 0x0100);
+        s->r[3] = mkr(REG_TYPE_UINT32, 4, K_MIN, 0x00010002, 0, 0x7fff0000);
+        break;
+    case 17: /* LE, memory: u16 range, f64 unconstrained */
+        s->be = false;
+        s->a[0] = (struct aspec){ 0x30, 5, REG_AF_RW, false, false };
+        s->nr = 2;
+        s->r[0] = mkr(REG_TYPE_UINT16, 0x30, K_RANGE, 5, 10, 7);
+        s->r[1] = mkr(REG_TYPE_FLOAT64, 0x31, K_NONE, 0, 0, db(0.0));
+        break;
+    case 20: case 21: case 22: case 23: case 24: case 25: case 26:
+    case 33: case 34: case 35: case 36: case 37: case 38: {
+        /* three adjacent areas of two words (1..2, 3..4, 5..6); bit i of m says
+         * whether area i holds registers.  Odd m: memory, even m: callback-backed.
+         * 33..38 (thorough): the same with both words of areas 1 and 2 covered by registers */
+        const bool rich = ti >= 30;
+        const int m = rich ? ti - 31 : ti - 19;
+        s->be = (m >> 1) & 1;
+        s->na = 3;
+        for (int i = 0; i < 3; ++i)
+            s->a[i] = (struct aspec){ 1 + 2 * (uint32_t)i, 2, REG_AF_RW, (m & 1) == 0, false };
+        s->nr = 0;
+        if (m & 1)
+            s->r[s->nr++] = mkr(REG_TYPE_UINT32, 1, K_RANGE, 0x00010002, 0x7ffe8001, 0x00010002);
+        if (m & 2) {
+            if (rich)
+                s->r[s->nr++] = mkr(REG_TYPE_UINT16, 3, K_NONE, 0, 0, 0x1234);
+            s->r[s->nr++] = mkr(REG_TYPE_UINT16, 4, K_RANGE, 5, 10, 7); /* not rich: word 3 belongs to no register */
+        }
+        if (m & 4) {
+            s->r[s->nr++] = mkr(REG_TYPE_SINT16, 5, K_MIN, 0xffff /* -1 */, 0, 0); /* not rich: word 6 belongs to no register */
+            if (rich)
+                s->r[s->nr++] = mkr(REG_TYPE_UINT16, 6, K_CB, 0, 0, 0x0002);
+        }
+        break;
+    }
     default: /* BE, callback-backed: u64 range alone */
         s->be = true;
         s->a[0] = (struct aspec){ 8, 4, REG_AF_RW, true, false };
@@ -328,6 +424,8 @@ struct op {
 };
 static struct op *ops;
 static int nops, capops;
+static int g_fault_reg;   /* the register the faulted typed set addresses */
+static uint32_t g_run_words; /* words of the first run of adjacent areas (the faulted block write covers it) */
 
 static void
 push_op(struct op o)
@@ -351,7 +449,8 @@ make_ops(void)
         /* typed operations only on registers of plain read-write areas: what a
          * typed set does to an area without the writable flag is not part of
          * the statement */
-        if (spec.a[flat_area_of(&spec, spec.r[r].addr)].flags != REG_AF_RW)
+        if ((spec.a[flat_area_of(&spec, spec.r[r].addr)].flags & REG_AF_RW) != REG_AF_RW
+            || spec.a[flat_area_of(&spec, spec.r[r].addr)].nowrite)
             continue;
         for (int i = 0; i < nV[r]; ++i)
             push_op((struct op){ O_SET, r, spec.r[r].type, V[r][i], 0, 0, 0 });
@@ -397,11 +496,25 @@ make_ops(void)
      * operation (0 sanitise, 1 typed set of register 0's default, 2 block
      * write of the current content, 3 get... via bit_set), addr = 0 read / 1 write
      * callback, n = k */
-    if (spec.a[0].cb)
+    bool anycb = false;
+    g_fault_reg = 0;
+    for (int r = spec.nr - 1; r >= 0; --r) {
+        const struct aspec *a = &spec.a[flat_area_of(&spec, spec.r[r].addr)];
+        if (a->cb && !a->nowrite)
+            g_fault_reg = r;
+    }
+    g_run_words = spec.a[0].size;
+    for (int i = 0; i < spec.na; ++i)
+        anycb |= spec.a[i].cb;
+    for (int i = 1; i < spec.na && spec.a[i].base == spec.a[i - 1].base + spec.a[i - 1].size; ++i)
+        g_run_words += spec.a[i].size;
+    if (anycb) {
+        const uint32_t kmax = spec.nr < 3 ? 3 : (uint32_t)spec.nr;
         for (int what = 0; what < 3; ++what)
             for (uint32_t rw = 0; rw < 2; ++rw)
-                for (uint32_t k = 0; k < 3; ++k)
+                for (uint32_t k = 0; k < kmax; ++k)
                     push_op((struct op){ O_FAULT, 0, REG_TYPE_INVALID, 0, rw, k, what });
+    }
 }
 
 static const char *
@@ -420,7 +533,7 @@ op_str(const struct op *o)
         break;
     case O_SANITISE: snprintf(b, sizeof b, "sanitise"); break;
     case O_FAULT:
-        snprintf(b, sizeof b, "%s while %s callback #%u answers IO_ERROR", o->pat == 0 ? "sanitise" : o->pat == 1 ? "set(reg0,default)" : "block_write(all,current)",
+        snprintf(b, sizeof b, "%s while %s callback #%u answers IO_ERROR", o->pat == 0 ? "sanitise" : o->pat == 1 ? "set(first register of a callback area,default)" : "block_write(first run of adjacent areas,current)",
                  o->addr ? "write" : "read", o->n);
         break;
     }
@@ -568,12 +681,12 @@ do_op(const struct op *o, bool *ok)
         else if (o->pat == 1) {
             RegisterValue v;
             memset(&v, 0, sizeof v);
-            v.type = spec.r[0].type;
-            v.value = spec.r[0].def;
-            a = register_set(&tb.t, 0, v);
+            v.type = spec.r[g_fault_reg].type;
+            v.value = spec.r[g_fault_reg].def;
+            a = register_set(&tb.t, (RegisterHandle)g_fault_reg, v);
         } else {
-            RegisterAtom *buf = mc_exact_copy(before, spec.a[0].size * sizeof(RegisterAtom));
-            a = register_block_write(&tb.t, spec.a[0].base, spec.a[0].size, buf);
+            RegisterAtom *buf = mc_exact_copy(before, g_run_words * sizeof(RegisterAtom));
+            a = register_block_write(&tb.t, spec.a[0].base, g_run_words, buf);
             free(buf);
         }
         const bool hit = (tb.cb_fail_read_at >= 0 && tb.cb_reads > tb.cb_fail_read_at) || (tb.cb_fail_write_at >= 0 && tb.cb_writes > tb.cb_fail_write_at);
@@ -591,8 +704,10 @@ do_op(const struct op *o, bool *ok)
         RegisterAccess a = register_sanitise(&tb.t);
         mc_log("-> %s@%u", acc(a.code), a.address);
         outcome = "sanitise-clean";
-        if (g_has_fail) {
-            /* the statement's sanitise clause is about tables without always-fail registers */
+        if (g_sanitise_unspec) {
+            /* the statement's sanitise clause is about tables without always-fail
+             * registers; whether the content of a write-only area is content
+             * sanitise has to look at is left open as well */
             outcome = "sanitise-unspecified";
             flat_snapshot(&tb, expect);
         } else if (a.code != REG_ACCESS_SUCCESS) {
@@ -631,16 +746,42 @@ do_op(const struct op *o, bool *ok)
 }
 
 /* ---- part 2: corruption -> sanitise ------------------------------------------ */
+
+/* can sanitise be expected to put a default back into this area?  Yes for
+ * areas with a write callback that are flagged writable (SKIP_DEFAULTS or not:
+ * the flag is about initialisation).  For an area without write callback it
+ * cannot; for an area that is flagged read-only the statement does not say
+ * whether sanitise may write to it. */
+static bool
+area_resettable(const struct aspec *a)
+{
+    return !a->nowrite && (a->flags & REG_AF_WRITEABLE) != 0;
+}
+
 static void
 corruption(int ti, bool thorough)
 {
-    /* per-word alphabet; index 0 = keep */
+    /* flat word index (snapshot layout) -> address, area */
+    uint32_t waddr[RT_MAXW];
+    int warea[RT_MAXW];
+    int wtotal = 0;
+    for (int i = 0; i < spec.na; ++i)
+        for (uint32_t x = 0; x < spec.a[i].size; ++x) {
+            waddr[wtotal] = spec.a[i].base + x;
+            warea[wtotal] = i;
+            wtotal++;
+        }
+    /* per-word alphabet; index 0 = keep.  Words of areas that are not
+     * corrupted have the one-letter alphabet {keep}. */
     RegisterAtom alpha[RT_MAXW][8];
     int nalpha[RT_MAXW];
-    const int wmax = spec.a[0].size; /* corrupt the first (read-write) area only */
-    for (int w = 0; w < wmax; ++w) {
+    for (int w = 0; w < wtotal; ++w) {
         int n = 0;
         alpha[w][n++] = 0; /* placeholder for keep */
+        if (!(g_corrupt_areas & (1u << warea[w]))) {
+            nalpha[w] = n;
+            continue;
+        }
         alpha[w][n++] = 0x0000;
         alpha[w][n++] = 0xffff;
         if (thorough) {
@@ -650,8 +791,10 @@ corruption(int ti, bool thorough)
         /* the word that puts the covering register one past its bound */
         for (int r = 0; r < spec.nr; ++r) {
             const uint32_t rw = ref_words(spec.r[r].type);
-            const uint32_t a = spec.a[0].base + (uint32_t)w;
+            const uint32_t a = waddr[w];
             if (a < spec.r[r].addr || a >= spec.r[r].addr + rw)
+                continue;
+            if (spec.r[r].ckind == K_NONE)
                 continue;
             uint64_t past = ref_bits(spec.r[r].type, (spec.r[r].ckind == K_MIN || spec.r[r].ckind == K_RANGE) ? spec.r[r].lo : spec.r[r].hi);
             if (type_is_float(spec.r[r].type)) {
@@ -677,6 +820,27 @@ corruption(int ti, bool thorough)
         }
         nalpha[w] = n;
     }
+    /* the two words a case fixes: the first two corrupted ones */
+    int f0 = -1, f1 = -1;
+    for (int w = 0; w < wtotal; ++w)
+        if (nalpha[w] > 1) {
+            if (f0 < 0)
+                f0 = w;
+            else if (f1 < 0)
+                f1 = w;
+        }
+    if (f0 < 0)
+        mc_broken("T%d: no corrupted word", ti + 1);
+    if (f1 < 0) {
+        /* one corrupted word only: the second fixed "word" is a virtual one with the alphabet {keep} */
+        f1 = wtotal;
+        nalpha[f1] = 1;
+    }
+    /* fault positions (callback-backed tables): none, k-th write, k-th read */
+    bool anycb = false;
+    for (int i = 0; i < spec.na; ++i)
+        anycb |= spec.a[i].cb;
+    const int nfault = anycb ? 1 + 2 * spec.nr : 1;
     /* clean states: every register at each of (default, first valid operand,
      * last valid operand) -- the product; all are valid contents */
     uint64_t C[RT_MAXR][3];
@@ -700,7 +864,6 @@ corruption(int ti, bool thorough)
         if (thorough || r < 2)
             nstates *= nC[r];
     }
-    (void)wmax;
     for (int64_t sid = 0; sid < nstates; ++sid) {
         struct key k;
         memset(&k, 0, sizeof k);
@@ -720,73 +883,118 @@ corruption(int ti, bool thorough)
             memcpy(k.w, img, sizeof k.w);
             k.flags = g_init_flags;
         }
-        /* one case per choice of the first two words; the rest enumerated inside */
-        for (int c0 = 0; c0 < nalpha[0]; ++c0)
-            for (int c1 = 0; c1 < nalpha[1]; ++c1) {
-                if (!mc_case("T%d corruption from state#%lld, word0=%d word1=%d x all other words", ti + 1, (long long)sid, c0, c1))
-                    continue;
-                int sel[RT_MAXW] = { 0 };
-                sel[0] = c0;
-                sel[1] = c1;
-                bool ok = true;
-                long nreset = 0, nkept = 0;
-                for (;;) {
-                    /* build corrupted image */
-                    struct key c = k;
-                    for (int w = 0; w < wmax; ++w)
-                        if (sel[w])
-                            c.w[w] = alpha[w][sel[w]];
-                    tab_from_key(&c);
-                    touched_restore(&tb, ((1u << spec.nr) - 1) & 0x5u); /* some marks set */
-                    /* reference */
-                    RegisterAtom expect[RT_MAXW];
-                    memcpy(expect, c.w, sizeof expect);
-                    for (int r = 0; r < spec.nr; ++r) {
-                        const uint64_t bits = reg_bits_now(r);
-                        const bool sane = ref_storable(spec.r[r].type, bits)
-                            && ref_constraint(&spec.r[r], ref_from_bits(spec.r[r].type, bits));
-                        if (!sane) {
-                            set_reg_words(expect, r, ref_bits(spec.r[r].type, spec.r[r].def));
-                            nreset++;
-                        } else
-                            nkept++;
+        /* one case per choice of two words and of the fault position; the rest enumerated inside */
+        for (int c0 = 0; c0 < nalpha[f0]; ++c0)
+            for (int c1 = 0; c1 < nalpha[f1]; ++c1)
+                for (int fi = 0; fi < nfault; ++fi) {
+                    /* quick: fault positions only from the first clean state */
+                    if (fi > 0 && !thorough && sid != 0)
+                        continue;
+                    const int fwrite = fi == 0 ? -1 : (fi - 1) < spec.nr ? fi - 1 : -1;
+                    const int fread = fi == 0 ? -1 : (fi - 1) < spec.nr ? -1 : fi - 1 - spec.nr;
+                    if (fi == 0) {
+                        if (!mc_case("T%d corruption from state#%lld, word%d=%d word%d=%d x all other words", ti + 1, (long long)sid, f0, c0, f1, c1))
+                            continue;
+                    } else {
+                        if (!mc_case("T%d corruption from state#%lld, word%d=%d word%d=%d x all other words, %s callback #%d answers IO_ERROR", ti + 1,
+                                     (long long)sid, f0, c0, f1, c1, fwrite >= 0 ? "write" : "read", fwrite >= 0 ? fwrite : fread))
+                            continue;
                     }
-                    RegisterAccess a = register_sanitise(&tb.t);
-                    mc_trans(1);
-                    RegisterAtom after[RT_MAXW];
-                    const size_t total = flat_snapshot(&tb, after);
-                    if (mc.verbose) {
-                        mc_log_hex("corrupted", c.w, total * 2);
-                        mc_log_hex("sanitised", after, total * 2);
-                    }
-                    if (a.code != REG_ACCESS_SUCCESS) {
-                        mc_fail("C05/sanitise-succeeds", "sanitise returned %s@%u", acc(a.code), a.address);
-                        ok = false;
-                    } else if (memcmp(after, expect, total * sizeof(RegisterAtom)) != 0) {
-                        mc_fail("C05/sanitise-resets-exactly-the-invalid", "storage after sanitise differs from 'invalid registers at default, all others untouched'");
-                        ok = false;
-                    } else if (touched_mask(&tb) != 0) {
-                        mc_fail("C05/sanitise-clears-touched", "touched marks %x after sanitise", touched_mask(&tb));
-                        ok = false;
-                    } else if (invariant_violation() >= 0) {
-                        mc_fail("C05/invariant", "invariant does not hold after sanitise");
-                        ok = false;
-                    }
-                    if (!ok)
-                        break;
-                    /* next combination of words 2.. */
-                    int w = 2;
-                    while (w < wmax) {
-                        if (++sel[w] < nalpha[w])
+                    int sel[RT_MAXW] = { 0 };
+                    sel[f0] = c0;
+                    sel[f1] = c1;
+                    bool ok = true;
+                    long nreset = 0, nkept = 0, nhit = 0, nunwritable = 0;
+                    for (;;) {
+                        /* build corrupted image */
+                        struct key c = k;
+                        for (int w = 0; w < wtotal; ++w)
+                            if (sel[w])
+                                c.w[w] = alpha[w][sel[w]];
+                        tab_from_key(&c);
+                        touched_restore(&tb, ((1u << spec.nr) - 1) & 0x5u); /* some marks set */
+                        /* reference */
+                        RegisterAtom expect[RT_MAXW];
+                        memcpy(expect, c.w, sizeof expect);
+                        bool unwritable = false; /* an invalid register sits where sanitise cannot / need not write */
+                        for (int r = 0; r < spec.nr; ++r) {
+                            const uint64_t bits = reg_bits_now(r);
+                            const bool sane = ref_storable(spec.r[r].type, bits)
+                                && ref_constraint(&spec.r[r], ref_from_bits(spec.r[r].type, bits));
+                            if (!sane) {
+                                set_reg_words(expect, r, ref_bits(spec.r[r].type, spec.r[r].def));
+                                nreset++;
+                                if (!area_resettable(&spec.a[flat_area_of(&spec, spec.r[r].addr)]))
+                                    unwritable = true;
+                            } else
+                                nkept++;
+                        }
+                        tb.cb_reads = tb.cb_writes = 0;
+                        tb.cb_fail_write_at = fwrite;
+                        tb.cb_fail_read_at = fread;
+                        tb.cb_oob = 0;
+                        RegisterAccess a = register_sanitise(&tb.t);
+                        const bool hit = (fread >= 0 && tb.cb_reads > fread) || (fwrite >= 0 && tb.cb_writes > fwrite);
+                        tb.cb_fail_read_at = tb.cb_fail_write_at = -1;
+                        mc_trans(1);
+                        RegisterAtom after[RT_MAXW];
+                        const size_t total = flat_snapshot(&tb, after);
+                        if (mc.verbose) {
+                            mc_log_hex("corrupted", c.w, total * 2);
+                            mc_log("-> %s@%u%s", acc(a.code), a.address, hit ? " (fault reached)" : "");
+                            mc_log_hex("sanitised", after, total * 2);
+                        }
+                        nhit += hit;
+                        nunwritable += unwritable;
+                        if (tb.cb_oob) {
+                            mc_fail("C05/area-bounds", "sanitise: area callback asked for words outside its area");
+                            ok = false;
+                        } else if (hit || unwritable) {
+                            /* a reset could not be carried out (I/O error, no write
+                             * callback) or the statement leaves open whether it is
+                             * (area flagged read-only): the statement then fixes one
+                             * thing only -- sanitise must not claim to have
+                             * re-established the invariant when it has not */
+                            if (a.code == REG_ACCESS_SUCCESS && invariant_violation() >= 0) {
+                                mc_fail("C05/sanitise-success-means-invariant", "sanitise returned SUCCESS but register %d holds %016llx, which violates its constraint",
+                                        invariant_violation(), (unsigned long long)reg_bits_now(invariant_violation()));
+                                ok = false;
+                            }
+                        } else if (a.code != REG_ACCESS_SUCCESS) {
+                            mc_fail("C05/sanitise-succeeds", "sanitise returned %s@%u", acc(a.code), a.address);
+                            ok = false;
+                        } else if (memcmp(after, expect, total * sizeof(RegisterAtom)) != 0) {
+                            mc_fail("C05/sanitise-resets-exactly-the-invalid", "storage after sanitise differs from 'invalid registers at default, all others untouched'");
+                            ok = false;
+                        } else if (touched_mask(&tb) != 0) {
+                            mc_fail("C05/sanitise-clears-touched", "touched marks %x after sanitise", touched_mask(&tb));
+                            ok = false;
+                        } else if (invariant_violation() >= 0) {
+                            mc_fail("C05/invariant", "invariant does not hold after sanitise");
+                            ok = false;
+                        }
+                        if (!ok)
                             break;
-                        sel[w] = 0;
-                        w++;
+                        /* next combination of the other words */
+                        int w = 0;
+                        while (w < wtotal) {
+                            if (w == f0 || w == f1 || nalpha[w] == 1) {
+                                w++;
+                                continue;
+                            }
+                            if (++sel[w] < nalpha[w])
+                                break;
+                            sel[w] = 0;
+                            w++;
+                        }
+                        if (w >= wtotal)
+                            break;
                     }
-                    if (w >= wmax)
-                        break;
+                    mc_end(true, !ok ? "failed"
+                           : fi > 0 ? (nhit ? "sanitise-fault-reached" : "sanitise-fault-not-reached")
+                           : nunwritable ? "sanitise-unwritable-corrupted"
+                           : nreset == 0 ? "sanitise-nothing-to-reset" : nkept == 0 ? "sanitise-all-reset" : "sanitise-mixed");
                 }
-                mc_end(true, !ok ? "failed" : nreset == 0 ? "sanitise-nothing-to-reset" : nkept == 0 ? "sanitise-all-reset" : "sanitise-mixed");
-            }
     }
 }
 
@@ -797,6 +1005,16 @@ setup_table(int ti)
     g_has_fail = false;
     for (int r = 0; r < spec.nr; ++r)
         g_has_fail |= spec.r[r].ckind == K_FAIL;
+    g_sanitise_unspec = g_has_fail;
+    for (int r = 0; r < spec.nr; ++r)
+        if (!(spec.a[flat_area_of(&spec, spec.r[r].addr)].flags & REG_AF_READABLE))
+            g_sanitise_unspec = true;
+    /* part 2 corrupts the first area; tables built for it: more */
+    g_corrupt_areas = 1u;
+    if (ti == 5 || ti == 6 || ti == 14 || ti == 16)
+        g_corrupt_areas = 3u;
+    if (ti >= 20 && ti <= 38)
+        g_corrupt_areas = 7u;
     tab_build(&tb, &spec);
     RegisterInit ri = register_init(&tb.t);
     nwords = 0;
@@ -804,6 +1022,21 @@ setup_table(int ti)
         nwords += (int)spec.a[i].size;
     if (ri.code != REG_INIT_SUCCESS)
         return false;
+    /* callback-backed areas that initialisation does not fill stand for a
+     * device that holds valid content: zero where zero is valid, else the default */
+    for (int ai = 0; ai < spec.na; ++ai)
+        if (spec.a[ai].cb && (spec.a[ai].nowrite || (spec.a[ai].flags & REG_AF_SKIP_DEFAULTS))) {
+            memset(tb.store[ai], 0, spec.a[ai].size * sizeof(RegisterAtom));
+            for (int r = 0; r < spec.nr; ++r) {
+                if (flat_area_of(&spec, spec.r[r].addr) != ai)
+                    continue;
+                if (!ref_constraint(&spec.r[r], ref_from_bits(spec.r[r].type, 0))) {
+                    unsigned char img[8];
+                    ref_image(spec.r[r].type, ref_bits(spec.r[r].type, spec.r[r].def), spec.be, img);
+                    memcpy(tb.store[ai] + (spec.r[r].addr - spec.a[ai].base), img, ref_words(spec.r[r].type) * 2);
+                }
+            }
+        }
     /* words outside registers of callback-backed areas start from zero */
     for (int ai = 0; ai < spec.na; ++ai)
         if (spec.a[ai].cb)
@@ -823,9 +1056,9 @@ setup_table(int ti)
 }
 
 static void
-run_table(int ti)
+run_table(int ti, int part)
 {
-    if (!mc_partition(ti, ti))
+    if (!mc_partition(part, ti))
         return;
     const bool up = setup_table(ti);
     mc_case("T%d %s initialisation", ti + 1, tspec_str(&spec));
@@ -876,8 +1109,8 @@ run_table(int ti)
 static void
 run_corruption(int ti, bool thorough)
 {
-    mc_partition(-1, 16 + ti);
-    if (mc.only >= 0 && (mc.only >> 40) != 16 + ti)
+    mc_partition(-1, CORRUPTION_BASE + ti);
+    if (mc.only >= 0 && (mc.only >> 40) != CORRUPTION_BASE + ti)
         return;
     if (!setup_table(ti)) {
         tab_free(&tb);
@@ -892,14 +1125,20 @@ int
 main(int argc, char **argv)
 {
     mc_init(argc, argv);
-    const int ntables = mc_thorough() ? NTABLES_THOROUGH : NTABLES;
+    const int *ids = mc_thorough() ? THOROUGH_IDS : QUICK_IDS;
+    const int ntables = mc_thorough() ? (int)(sizeof THOROUGH_IDS / sizeof THOROUGH_IDS[0]) : (int)(sizeof QUICK_IDS / sizeof QUICK_IDS[0]);
     /* the largest searches first, so that the shards are busy evenly */
-    for (int ti = ntables - 1; ti >= 0; --ti)
-        run_table(ti);
-    for (int ti = 0; ti < ntables; ++ti)
-        run_corruption(ti, mc_thorough());
-    mc_finish(true, mc_thorough()
-                        ? "12 tables (three of them with 3-4 registers over 7-10 words); fixpoint over typed set / bit set / bit clear / block write (every window) / sanitise with boundary operands and one-fault environment operations on callback-backed tables; corruption: every image over {keep,0000,ffff,7f80,0001,one-past-bound} per word from every combination of valid register contents (default / first / last valid operand), sanitise once"
-                        : "9 tables; fixpoint over typed set / bit set / bit clear / block write (every window) / sanitise with boundary operands and one-fault environment operations on callback-backed tables; corruption: every image over {keep,0000,ffff,one-past-bound} per word from every combination of valid contents of the first two registers, sanitise once");
+    for (int i = ntables - 1; i >= 0; --i)
+        run_table(ids[i], i);
+    for (int i = 0; i < ntables; ++i)
+        run_corruption(ids[i], mc_thorough());
+    char bound[1200];
+    snprintf(bound, sizeof bound, "%d tables (%s); fixpoint over typed set / bit set / bit clear / block write (every window) / sanitise with boundary operands and one-fault environment operations (sanitise, typed set, block write with the k-th read or write callback failing, k < max(3, registers)) on callback-backed tables; corruption: every image over %s per word of the corrupted areas from every combination of valid contents of %s, sanitise once without fault and (callback-backed tables%s) once per single read / write fault position",
+             ntables,
+             mc_thorough() ? "the quick ones + three with 3-4 registers over 7-10 words + six three-area tables with two registers per populated area" : "nine small ones, write-only areas, SKIP_DEFAULTS areas, an area without write callback, unconstrained f64, three adjacent areas with every subset entry-less",
+             mc_thorough() ? "{keep,0000,ffff,7f80,0001,one-past-bound}" : "{keep,0000,ffff,one-past-bound}",
+             mc_thorough() ? "all registers (default / first / last valid operand)" : "the first two registers",
+             mc_thorough() ? "" : ", from the first clean state");
+    mc_finish(true, bound);
     return 0;
 }
